@@ -590,6 +590,32 @@ def queue_rules(R, P):
         unsifted = [sorted(s) for s in tse.exit_states if not s]
         gu = [RU.cmp_norm(e_, c_, p_) for c_, p_, b_ in RU.guards(e_, up_[0])]
         gu_txt = [(e_.show(RU.uncast(e_, g_[0])), g_[1]) for g_ in gu if g_]
+        ok_syn = not unsifted and all(t_ in (("index", "!="),) for t_ in gu_txt)
+        if not ok_syn:
+            # the same decided on values (a flag that remembers whether sift-up moved the element): every exit state has called
+            # one of the two, and sift-up was left out only for index == 0
+            from sa.awslib import AwsHooks as _AH
+            from sa.num import Num as _N2, Poly as _P2, Limit as _L2
+
+            class _H(_AH):
+                def call(self, num, st, e, args):
+                    c_ = e.get("callee") or ""
+                    if c_ in ("s_sift_up", "s_sift_down"):
+                        st.notes["sift"] = list(st.notes.get("sift", [])) + [c_]
+                        return _P2.atom(num.fresh(st, c_, None, (0, 1)))
+                    return _AH.call(self, num, st, e, args)
+            try:
+                n2 = _N2(e_, P, _H())
+                ex = n2.states_at({-1}).get(-1, [])
+                okn = bool(ex)
+                for st in ex:
+                    sf = st.notes.get("sift", [])
+                    ix = st.env.get("v:" + e_.params[1]["n"])
+                    okn = okn and bool(sf) and ("s_sift_up" in sf or (ix is not None and entails(st, ix) and entails(st, -ix)))
+                if okn:
+                    unsifted, gu_txt, ok_syn = [], [("index", "!=")], True
+            except _L2:
+                pass
         R.check(not unsifted and all(t_ in (("index", "!="),) for t_ in gu_txt), "HEAP-SHAPE", "sift-either:every-path-re-sifts", "s_sift_either()", "no path returns without sifting; sift-up is skipped only for the root (%s)" % gu_txt,
                 "s_sift_either can return without re-ordering (or skips sift-up under %s): an element moved into a leaf slot from another subtree stays below a larger parent, so pop no longer returns the minimum" % gu_txt)
     sw = dn.calls("s_swap") + up.calls("s_swap")
